@@ -505,12 +505,8 @@ OBLIGATIONS += [
     k2("syscall.named_commands", _k2h("ecs::named_syscall", "named_syscall_commands_applied_on_return"), ["C17"],
        ["named_syscall", "IdMappedSystems"], ["src/ecs/named_syscall.rs"], "2 calls with one name; input any u8 < 50; the system queues one command per run",
        "the called system's commands are applied before named_syscall returns, on the creating call and on a later call; nothing stays queued"),
-    k2("syscall.named_reentrant", _k2h("ecs::named_syscall", "named_syscall_reentrant_same_key"), ["C17"],
-       ["named_syscall", "IdMappedSystems"], ["src/ecs/named_syscall.rs"],
-       "2 calls with one name; in the first the system queues a command that calls the SAME name while the outer call is in progress; input any u8 < 50",
-       "calls made from commands of other calls, same key: outer and nested invocation each run exactly once with their commands applied "
-       "before the outer call returns; the nested one runs on a fresh state (documented), the outer-most state is the one that persists; "
-       "the key stays usable"),
+    # syscall.named_reentrant (named_syscall_reentrant_same_key: a command of a named system calling the SAME name): written, compiles,
+    # exceeds the caps (600 s; also with a recursion bound of 2 on named_syscall) - not registered.
 ]
 
 for (nm, what) in [("two_same_type", "2 entries of one reaction type"), ("two_types", "2 entries of two reaction types")]:
@@ -653,6 +649,48 @@ OBLIGATIONS.append(k2("revoke.exact_pairs", _k2h("react::react_commands", "revok
                       stubs=["EntityReactors::remove -> record_remove (records table address, reaction type, reactor id; what a removal "
                              "does to a table is decided by entreactors.remove_*)"],
                       no_native_playback=True, witness=[["revoke_pairs"]]))
+
+_ROUTE_STUBS = ["EntityReactors::remove, ReactCache::revoke_{broadcast,resource_mutation,any_entity_event,component,despawn}_reactor -> recorders "
+                "(kernel, reaction kind, type key, entity / table address, reactor id); the kernels' own behaviour is decided by rc.revoke_* and "
+                "entreactors.remove_*"]
+OBLIGATIONS.append(k2("revoke.routes_all_kinds", _k2h("react::react_commands", "revoke_reactor_routes_all_kinds"), ["C06", "C07", "C15", "C16"],
+                      ["revoke_reactor", "Query::get_mut"], ["src/react/react_commands.rs", "src/react/utils.rs"],
+                      "two-entry token, EACH entry symbolically any of the eleven ReactorType variants (121 combinations, duplicates included), aimed "
+                      "at two different live entities carrying reactor tables",
+                      "revoke_reactor makes exactly one kernel call per token entry - the kernel of that entry's kind, with that entry's type key / "
+                      "entity (for entity-scoped kinds: that entity's table) and the token's reactor id; nothing is skipped, nothing else is addressed "
+                      "(calls compared as a multiset)",
+                      stubs=_ROUTE_STUBS, no_native_playback=True, witness=[["revoke_pairs"]]))
+OBLIGATIONS.append(k2("revoke.routes_all_kinds_3", _k2h("react::react_commands", "revoke_reactor_routes_all_kinds_3"), ["C06", "C07", "C15", "C16"],
+                      ["revoke_reactor", "Query::get_mut"], ["src/react/react_commands.rs", "src/react/utils.rs"],
+                      "three-entry token, each entry symbolically any of the eleven ReactorType variants (1331 combinations), three live entities",
+                      "as revoke.routes_all_kinds, three entries", tiers=("thorough",),
+                      stubs=_ROUTE_STUBS, no_native_playback=True, witness=[["revoke_pairs"]]))
+
+_ENTRY_STUBS = ["ReactCache::schedule_{entity_event,insertion,mutation}_reaction -> recorders (dispatch kind, type parameter, entity index + "
+                "generation, payload); what a dispatch schedules is decided by rc.entity_event_* / rc.insertion_* / rc.mutation_* and their "
+                "dead-target variants"]
+OBLIGATIONS.append(k2("entry.entity_event", _k2h("react::react_commands", "entry_entity_event_one_dispatch"), ["C14", "C03"],
+                      ["ReactCommands::entity_event", "Commands::syscall_with_validation", "syscall_with_validation", "validate_rc"],
+                      ["src/react/react_commands.rs", "src/ecs/syscall.rs", "src/react/extensions.rs"],
+                      "target symbolically live or a stale id; payload any u8; the queued syscall is applied at once",
+                      "one entity_event call ends in exactly one entity-event dispatch of that event type, carrying exactly that target (index "
+                      "and generation) and that payload; no other dispatch; nothing left queued",
+                      stubs=_ENTRY_STUBS, no_native_playback=True, witness=[["entry", "entity_event"]]))
+OBLIGATIONS.append(k2("entry.insert", _k2h("react::react_commands", "entry_insert_one_dispatch"), ["C14", "C18"],
+                      ["ReactCommands::insert", "Commands::syscall_with_validation", "syscall_with_validation", "validate_rc"],
+                      ["src/react/react_commands.rs", "src/ecs/syscall.rs", "src/react/extensions.rs"],
+                      "target symbolically live or a stale id; component value any u8; queued commands applied at once",
+                      "live entity: the wrapped component (recording its owner) is on the entity and exactly one INSERTION dispatch for that "
+                      "component type and entity follows - no mutation dispatch; id that does not exist: nothing inserted, nothing dispatched",
+                      stubs=_ENTRY_STUBS, no_native_playback=True, witness=[["entry", "insert"]]))
+OBLIGATIONS.append(k2("entry.mutation_accessors", _k2h("react::react_commands", "entry_mutation_accessors_one_dispatch"), ["C14"],
+                      ["React::get_mut", "React::set_if_neq", "React::get", "React::get_noreact", "Commands::syscall", "syscall"],
+                      ["src/react/react_component.rs", "src/ecs/syscall.rs", "src/react/extensions.rs"],
+                      "all old/new u8 pairs; one set_if_neq and one get_mut; queued syscalls applied at once",
+                      "reads dispatch nothing; set_if_neq ends in exactly one MUTATION dispatch iff the value differs, get_mut in exactly one per "
+                      "call, each for the component's own entity (index and generation)",
+                      stubs=_ENTRY_STUBS, no_native_playback=True, witness=[["entry", "mutation"]]))
 
 OBLIGATIONS.append(k2("token.duplicate_member", _k2h("react::reaction_trigger", "token_keeps_duplicate_member"), ["C06", "C15", "C16"],
                       ["RevokeToken::new_from", "get_reactor_types", "ReactionTriggerBundle::collect_reactor_types"],
@@ -921,7 +959,7 @@ _QUICK_ONLY_FOR = {
     "cmd.apply_reaction_broadcast": ["C05", "C18"],
     "cmd.pair_broadcast_event": ["C05"], "cmd.pair_system_event": ["C04"], "cmd.pair_despawn_reaction": ["C07"],
     "rc.register_broadcast_2_1": ["C01"], "rc.register_mutation_1_1_1": ["C15"], "rc.register_despawn_by_entity": ["C08"], "entry.broadcast": ["C14"], "syscall.named_nested": ["C17"],
-    "register.two_triggers": ["C15"], "register.empty_bundle": ["C15"], "token.every_member": ["C06", "C15", "C16"], "revoke.exact_pairs": ["C06"], "token.reactor_types_duplicates": ["C06", "C15"],
+    "register.two_triggers": ["C15"], "register.empty_bundle": ["C15"], "token.every_member": ["C06", "C15", "C16"], "revoke.exact_pairs": ["C06"], "entry.entity_event": ["C14"], "entry.insert": ["C14"], "revoke.routes_all_kinds": ["C06", "C07"], "token.reactor_types_duplicates": ["C06", "C15"],
 }
 
 
